@@ -103,6 +103,23 @@ Proof.
         -- right. exact (IH t2 Hs d Hp).
 Qed.
 
+Lemma ro_list_eqb_eq {A} (eqb : A -> A -> bool) : (forall x y, eqb x y = true -> x = y) ->
+  forall a b, list_eqb eqb a b = true -> a = b.
+Proof.
+  intros H a. induction a as [|x a IH]; intros [|y b] E; cbn in E; try discriminate; [reflexivity|].
+  apply andb_prop in E as [E1 E2]. rewrite (H _ _ E1), (IH _ E2). reflexivity.
+Qed.
+
+Lemma ro_tseg_eqb_eq a b : tseg_eqb a b = true -> a = b.
+Proof.
+  destruct a, b; cbn [tseg_eqb]; intros H; try discriminate.
+  - apply String.eqb_eq in H. subst. reflexivity.
+  - apply String.eqb_eq in H. subst. reflexivity.
+  - apply andb_prop in H as [H1 H2]. apply String.eqb_eq in H1.
+    apply (ro_list_eqb_eq String.eqb (fun x y => proj1 (String.eqb_eq x y))) in H2. subst. reflexivity.
+  - apply String.eqb_eq in H. subst. reflexivity.
+Qed.
+
 (* ------------------------------------------------------------------------------------------ *)
 (* first-match folds                                                                          *)
 (* ------------------------------------------------------------------------------------------ *)
@@ -117,7 +134,7 @@ Section TraceSound.
   Hypothesis step_ext : forall x k k', (forall s, k s = k' s) -> forall s, step x k s = step x k' s.
   Hypothesis step_swap : forall x y, apart x y = true -> forall k s, step x (step y k) s = step y (step x k) s.
 
-  Fixpoint run (l : list A) : S -> R := match l with [] => base | x :: r => step x (run r) end.
+  Fixpoint fm_run (l : list A) : S -> R := match l with [] => base | x :: r => step x (fm_run r) end.
 
   Lemma extract_split x l : forall p s, extract eqb x l = Some (p, s) -> l = p ++ x :: s.
   Proof.
@@ -127,19 +144,19 @@ Section TraceSound.
     - destruct (extract eqb x l) as [[p' s']|]; [|discriminate]. inversion H; subst. cbn [app]. f_equal. apply IH. reflexivity.
   Qed.
 
-  Lemma run_move_front x q p : forallb (apart x) p = true -> forall s, run (p ++ x :: q) s = run (x :: p ++ q) s.
+  Lemma run_move_front x q p : forallb (apart x) p = true -> forall s, fm_run (p ++ x :: q) s = fm_run (x :: p ++ q) s.
   Proof.
     induction p as [|y p IH]; intros Hp s; [reflexivity|].
-    cbn [forallb] in Hp. apply andb_prop in Hp as [Hy Hp]. cbn [app run].
-    rewrite (step_ext y _ _ (IH Hp) s). cbn [run]. symmetry. apply step_swap. exact Hy.
+    cbn [forallb] in Hp. apply andb_prop in Hp as [Hy Hp]. cbn [app fm_run].
+    rewrite (step_ext y _ _ (IH Hp) s). cbn [fm_run]. symmetry. apply step_swap. exact Hy.
   Qed.
 
-  Lemma trace_equiv_run l1 : forall l2, trace_equiv eqb apart l1 l2 = true -> forall s, run l1 s = run l2 s.
+  Lemma trace_equiv_run l1 : forall l2, trace_equiv eqb apart l1 l2 = true -> forall s, fm_run l1 s = fm_run l2 s.
   Proof.
     induction l1 as [|x l1 IH]; intros l2 H s; cbn [trace_equiv] in H.
     - destruct l2; [reflexivity | discriminate].
     - destruct (extract eqb x l2) as [[p q]|] eqn:E; [|discriminate].
       apply andb_prop in H as [Hp Hr]. rewrite (extract_split _ _ _ _ E).
-      rewrite (run_move_front x q p Hp s). cbn [run]. apply step_ext. exact (IH _ Hr).
+      rewrite (run_move_front x q p Hp s). cbn [fm_run]. apply step_ext. exact (IH _ Hr).
   Qed.
 End TraceSound.
